@@ -179,6 +179,10 @@ package nbhttp
 //@   props C11 C10
 //@   safety index slice nil div assert panic make
 //@   requires res != nil ==> ResOwn(res)
+//@   requires once: res != nil ==> !pooledObj[res]   // prop C10
+//@   ensures pooled: res != nil ==> pooledObj[res]
+//@   ensures otherobjs: forall o int :: o != res ==> pooledObj[o] == old(pooledObj[o])
+//@   at before:Put#1 ghost { pooledObj[res] = true }
 //@   ensures res != nil ==> res.buffer == nil && res.bodyBuffer == nil
 //@   ensures old(res != nil && res.buffer != nil) ==> !liveP[old(res.buffer)]
 //@   ensures old(res != nil && res.bodyBuffer != nil) ==> !liveP[old(res.bodyBuffer)]
@@ -190,13 +194,17 @@ package nbhttp
 //@ func releaseRequest
 //@   trusted
 //@   note returns the request (and, unless retained, its body reader) to their object pools; no allocator buffer of the response is involved
-//@   assigns allocates
+//@   requires once: req != nil ==> !pooledObj[req]   // prop C10
+//@   ensures req != nil ==> pooledObj[req]
+//@   ensures forall o int :: o != req ==> pooledObj[o] == old(pooledObj[o])
+//@   assigns pooledObj, allocates
 
 // ---- end of a handler: head and body flushed, connection closed iff the request asked for it or the flush failed, response buffers given back (C09, C10, C11)
 //@ func (*ServerProcessor).flushResponse
 //@   props C09 C10 C11 C16
 //@   safety index slice nil div assert panic make
 //@   requires parser != nil && parser.Engine != nil && res != nil && res.request != nil && res.Parser != nil && ResOwn(res) && (!res.headEncoded ==> res.buffer == nil)
+//@   requires inuse: !pooledObj[res] && !pooledObj[res.request] && res != res.request
 //@   ensures released: old(parser.Conn) != nil ==> res.buffer == nil && res.bodyBuffer == nil                       // prop C11
 //@   ensures freed1: old(parser.Conn) != nil && old(res.buffer) != nil ==> !liveP[old(res.buffer)]                   // prop C11
 //@   ensures freed2: old(parser.Conn) != nil && old(res.bodyBuffer) != nil ==> !liveP[old(res.bodyBuffer)]           // prop C11
@@ -266,6 +274,7 @@ package nbhttp
 //@ ghost local Parser.gCache : Int
 //@ ghost local Parser.gUp : Bool
 //@ ghost local Parser.gSrcH : Int
+//@ ghost local Parser.gCsErr : Bool
 //@ ghost local Parser.gRow : (Array Int Int)
 //@ pred ParseCache(p *Parser, offset int, n int, cache0 *[]byte, n0 int, rl0 int) := (cache0 != nil ==> p.bytesCached == cache0 || !liveP[cache0]) && (offset == 0 ==> p.bytesCached == nil && n == n0) && (offset > 0 ==> p.bytesCached != nil && len(*p.bytesCached) == n && (rl0 > 0 ==> n <= rl0)) && p.Engine.ReadLimit == rl0
 //@ pred ParserInv(p *Parser) := p.Processor != nil && p.Engine != nil && p.status == "" && (p.state != stateBodyTrailerHeaderValue ==> p.headerValue == "") && (p.state != stateClose && p.bytesCached != nil ==> liveP[p.bytesCached] && p.bytesCached <= top && len(*p.bytesCached) > 0) && (p.state == stateBodyContentLength ==> p.contentLength > 0) && (p.state == stateBodyChunkData ==> p.chunkSize > 0)
@@ -334,7 +343,9 @@ package nbhttp
 //@   ensures inv3: result == nil && !p.gUp ==> (p.state == stateBodyContentLength ==> p.contentLength > 0) && (p.state == stateBodyChunkData ==> p.chunkSize > 0)
 //@   ensures cachelimit: result == nil && p.bytesCached != nil && old(p.Engine.ReadLimit) > 0 ==> len(*p.bytesCached) <= max(old(p.Engine.ReadLimit), old(len(data))) || (old(len(data)) == 0 && len(*p.bytesCached) == old(buflen(p.bytesCached)))   // prop C08
 //@   note segmentation independence, local half (C06): what is kept for the next call is exactly the tail of (old cache ++ data); nothing is dropped, duplicated or shifted
-//@   persite suffix0 suffix1a suffix1b
+//@   persite suffix0 suffix1a suffix1b chunkline
+//@   note chunk extensions are skipped (C07, C06): in the chunk-size line the only error exits are those of the size parser itself - whatever follows the size up to CR (an extension) is ignored, wherever the reads are cut
+//@   ensures chunkline: result != nil && result != ErrTooLong && !p.gUp && p.ParserCloser == nil && p.state == stateBodyChunkSize ==> p.gCsErr   // prop C07 C06
 //@   ensures suffixlen: result == nil && !p.gUp && p.bytesCached != nil ==> len(*p.bytesCached) <= old(buflen(p.bytesCached)) + old(len(data))   // prop C06
 //@   ensures suffix0: result == nil && !p.gUp && p.bytesCached != nil && old(p.bytesCached) == nil ==> (forall q int {mem(*p.bytesCached, q)} :: off(*p.bytesCached) <= q && q < off(*p.bytesCached) + len(*p.bytesCached) ==> mem(*p.bytesCached, q) == memold(data, old(off(data)) + old(len(data)) - len(*p.bytesCached) + q - off(*p.bytesCached)))   // prop C06
 //@   ensures suffix1a: result == nil && !p.gUp && p.bytesCached != nil && old(p.bytesCached) != nil && len(*p.bytesCached) == old(buflen(p.bytesCached)) + old(len(data)) ==> (forall q int {mem(*p.bytesCached, q)} :: off(*p.bytesCached) <= q && q < off(*p.bytesCached) + len(*p.bytesCached) ==> mem(*p.bytesCached, q) == ite(old(buflen(p.bytesCached)) + old(len(data)) - len(*p.bytesCached) + q - off(*p.bytesCached) < old(buflen(p.bytesCached)), memold(*p.bytesCached, old(off(*p.bytesCached)) + old(buflen(p.bytesCached)) + old(len(data)) - len(*p.bytesCached) + q - off(*p.bytesCached)), memold(data, old(off(data)) + old(len(data)) - len(*p.bytesCached) + q - off(*p.bytesCached))))   // prop C06
@@ -358,7 +369,8 @@ package nbhttp
 //@   at entry ghost { p.gUp = false; p.gRow = bytes_row(base(data)) }
 //@   at call:Append#1 ghost { p.gRow = bytes_row(base(*result)); p.gSrcH = result }
 //@   note no read after free (C11): once the new input has been appended to the cache, data aliases the cache's buffer; whenever the rest is copied out of data, that buffer must still be owned (not yet given back)
-//@   at entry ghost { p.gSrcH = 0 }
+//@   at entry ghost { p.gSrcH = 0; p.gCsErr = false }
+//@   at call:parseAndValidateChunkSize#* ghost { p.gCsErr = result1 != nil }
 //@   at before:copy#* assert srclive: p.gSrcH != 0 && base(arg_src) == base(box(p.gSrcH, "[]byte")) ==> liveP[p.gSrcH]   // prop C11
 //@   at before:Parse#1 ghost { p.gCache = p.bytesCached; p.gUp = true }
 //@   at call:Parse#1 assume upkeep: p.bytesCached == p.gCache
@@ -367,7 +379,7 @@ package nbhttp
 //@     invariant bytes_row(base(data)) == p.gRow && (offset > 0 ==> base(*p.bytesCached) == base(data) && off(*p.bytesCached) == off(data))
 //@     invariant p.ParserCloser != nil || ((p.state == stateBodyContentLength ==> offset < p.contentLength) && (p.state == stateBodyChunkData ==> offset < p.chunkSize))
 //@     invariant ParseCache(p, offset, len(data), old(p.bytesCached), old(len(data)), old(p.Engine.ReadLimit))
-//@     invariant (offset > 0 ==> p.gSrcH == p.bytesCached) && (offset == 0 ==> p.gSrcH == 0)
+//@     invariant (offset > 0 ==> p.gSrcH == p.bytesCached) && (offset == 0 ==> p.gSrcH == 0) && !p.gCsErr
 //@   loop 2
 //@     invariant 0 <= start && start <= i && i <= len(data) && ParserInv(p) && p.state != stateClose
 //@     invariant bytes_row(base(data)) == p.gRow && (offset > 0 ==> base(*p.bytesCached) == base(data) && off(*p.bytesCached) == off(data))
@@ -376,7 +388,7 @@ package nbhttp
 //@     carried i start   // prop C06
 //@     decreases len(data) - i
 //@     invariant ParseCache(p, offset, len(data), old(p.bytesCached), old(len(data)), old(p.Engine.ReadLimit))
-//@     invariant (offset > 0 ==> p.gSrcH == p.bytesCached) && (offset == 0 ==> p.gSrcH == 0)
+//@     invariant (offset > 0 ==> p.gSrcH == p.bytesCached) && (offset == 0 ==> p.gSrcH == 0) && !p.gCsErr
 
 //@ fieldfunc nbhttp.Parser.onClose
 //@   note the close callback installed by the engine or the upgrader: leaves the parser's cache and pooled buffers alone
@@ -485,6 +497,8 @@ package nbhttp
 // =====================================================================================================================
 // gExec: closures handed to the connection's executor by the code under contract; gServed: handler invocations
 //@ ghost gExec : Int
+// pooledObj[o]: the request / response object o has been given back to its object pool and not been taken out again (C10: an object is given back once; two exchanges never share one)
+//@ ghost pooledObj : (Array Int Bool)
 //@ ghost gServed : Int
 //@ fieldfunc nbhttp.Parser.Execute
 //@   params f
@@ -493,7 +507,7 @@ package nbhttp
 //@   assigns gExec, allocates
 //@ fieldfunc nbhttp.Config.OnRequest
 //@   note user hook called before the handler: reaches the response through its public methods only
-//@   ensures gExec == old(gExec) && gServed == old(gServed) && (forall e *Engine :: e.Handler == old(e.Handler)) && (forall q *Parser :: q.Engine == old(q.Engine) && q.Execute == old(q.Execute)) && (forall sp *ServerProcessor :: sp.request == old(sp.request))
+//@   ensures pooledObj == old(pooledObj) && gExec == old(gExec) && gServed == old(gServed) && (forall e *Engine :: e.Handler == old(e.Handler)) && (forall q *Parser :: q.Engine == old(q.Engine) && q.Execute == old(q.Execute)) && (forall sp *ServerProcessor :: sp.request == old(sp.request))
 //@   assigns everything
 //@ package net/http
 //@ iface net/http.Handler.ServeHTTP
@@ -519,7 +533,11 @@ package nbhttp
 //@   safety index slice
 //@   note the response pool's New returns a *Response: the type assertion and the non-nil result are not re-proved here
 //@   ensures result != nil && result.Parser == parser && result.request == request
-//@   assigns Response.Parser, Response.request, Response.header, allocates
+//@   note what comes out of the pool is in use: not in the pool any more, and different from every object still in use (sync.Pool hands an object out once per Put; trusted)
+//@   ensures taken: !pooledObj[result] && result != request && (forall o int :: o != result ==> pooledObj[o] == old(pooledObj[o]))
+//@   assigns Response.Parser, Response.request, Response.header, pooledObj, allocates
+//@   at call:Get#1 assume fromPool: istype(result, "*Response") ==> as(result, "*Response") != request
+//@   at return ghost { pooledObj[result] = false }
 
 // ---- OnComplete: a completed request is handed to the executor exactly once; the job calls the handler once and then
 // flushes once; a refused job releases the request and writes nothing
@@ -527,16 +545,18 @@ package nbhttp
 //@   props C10
 //@   safety nil
 //@   requires engine != nil && engine.Handler != nil && parser != nil && parser.Engine != nil && response != nil && request != nil
+//@   requires inuse: !pooledObj[response] && !pooledObj[request] && response != request
 //@   ensures served: gServed == old(gServed) + 1   // prop C10
 //@   assigns everything
 //@   at before:flushResponse#1 assert after: gServed == old(gServed) + 1 && arg_res == response && arg_parser == parser   // prop C10
-//@   at before:flushResponse#1 assume handler: response.request != nil && response.Parser != nil && ResOwn(response) && (!response.headEncoded ==> response.buffer == nil)
+//@   at before:flushResponse#1 assume handler: pooledObj == old(pooledObj) && response.request == request && response.request != nil && response.Parser != nil && ResOwn(response) && (!response.headEncoded ==> response.buffer == nil)
 // connHas(r, tok, n): one of the first n Connection values of r is tok once spaces are trimmed and letters lowered
 //@ pred connHas(r *http.Request, tok string, n int) := exists q int {mem(r.Header["Connection"], q)} :: off(r.Header["Connection"]) <= q && q < off(r.Header["Connection"]) + n && lower(trimsp(mem(r.Header["Connection"], q))) == tok
 //@ func (*ServerProcessor).OnComplete
 //@   props C10 C07
 //@   safety nil
 //@   requires p != nil && parser != nil && parser.Engine != nil && parser.Conn != nil && parser.Execute != nil && parser.Engine.Handler != nil && (p.request != nil ==> p.request.URL != nil)
+//@   requires inuse: p.request != nil ==> !pooledObj[p.request]
 //@   ensures once: gExec == old(gExec) + ite(old(p.request) != nil, 1, 0)   // prop C10
 //@   ensures taken: p.request == nil   // prop C10
 //@   ensures inline: gServed == old(gServed)
